@@ -12,7 +12,10 @@ def gen_script(rng, nops, max_live):
     handles = []       # (world, alive)
     for _ in range(nops):
         c = rng.weighted([('new', 14 if len(live) < max_live else 0), ('del', 8 if live else 0), ('create', 30 if live else 0),
-                          ('destroynow', 14 if handles else 0), ('update', 5 if live else 0)])
+                          ('destroynow', 14 if handles else 0), ('update', 5 if live else 0), ('probe', 6 if live else 0)])
+        if c == 'probe':
+            lines.append('probe %d' % rng.pick(live))
+            continue
         if c == 'new':
             lines.append(rng.weighted([('new', 5), ('newshared', 3), ('newdefault', 2)]))
             live.append(nworlds); nworlds += 1
@@ -64,6 +67,10 @@ def tier_a(impl):
                 target = k
             elif t[0] in ('update', 'del'):
                 target = int(t[1])
+            elif t[0] == 'probe':
+                target = int(t[1])
+                if len(r) > 1 and r[1:] != ['probe', 'create=1', 'assign=1']:
+                    fail = 'world w%s does not honour a dependency declared on it (%s): worlds do not behave identically' % (t[1], ' '.join(r[2:])); break
             ids = {}
             for x in (b['tags'].get('I') or ['I'])[0].split()[1:]:
                 w, v = x.split('=')
